@@ -2066,6 +2066,12 @@ pub fn gen_c19(thorough: bool, _seed: u64) -> Vec<Episode> {
             eps.push(Episode { n, tys: "both", ops: vec![json!({"op": "rand_begin", "n": n, "threads": if n % 4 == 0 { 2 } else { 1 }, "count": 256, "inter": other})] });
         }
     }
+    // one long batch on one thread (more than 2^16 words in all): no table may come back
+    eps.push(Episode { n: 12, tys: "lut", ops: vec![json!({"op": "rand_begin", "n": 12, "threads": 1, "count": 1100})] });
+    if thorough {
+        eps.push(Episode { n: 12, tys: "lutn", ops: vec![json!({"op": "rand_begin", "n": 12, "threads": 1, "count": 1100})] });
+        eps.push(Episode { n: 11, tys: "lut", ops: vec![json!({"op": "rand_begin", "n": 11, "threads": 2, "count": 2200})] });
+    }
     // threads that live one after the other (each created after the previous one was joined)
     for n in if thorough { vec![8usize, 9, 10, 11, 12] } else { vec![8usize, 11] } {
         eps.push(Episode { n, tys: "both", ops: vec![json!({"op": "rand_begin", "n": n, "threads": 3, "count": 256, "serial": true})] });
